@@ -357,4 +357,32 @@ def rule_g(ctx: Ctx) -> None:
                 '(`value is None` / `empty`).')
 
 
-RULES = [rule_a, rule_b, rule_c, rule_d, rule_e, rule_f, rule_g]
+def rule_h(ctx: Ctx) -> None:
+    """Field values are compared in the value space of the declared type.  The selector asks the type predicates of XsdType which
+    value space that is; each of them decides by derivation from the built-in (a complex type with simple content and attributes has
+    xs:anyType as root type, so a test on the root type misses it)."""
+    rule = 'C08.h'
+    c = ctx.idx.cls('xmlschema.validators.xsdbase.XsdType')
+    want = {'is_key': 'nm.XSD_ID', 'is_qname': 'nm.XSD_QNAME', 'is_notation': 'nm.XSD_NOTATION_TYPE', 'is_decimal': 'nm.XSD_DECIMAL', 'is_boolean': 'nm.XSD_BOOLEAN'}
+    n = 0
+    for name, const in want.items():
+        f = c.methods.get(name)
+        if f is None:
+            raise AnalysisError(f'missing anchor XsdType.{name}')
+        ctx.analysed(f.qualname)
+        rets = [text(r.value) for r in ast.walk(f.node) if isinstance(r, ast.Return) and r.value is not None]
+        n += 1
+        ok = rets == [f'self.is_derived(self.maps.types[{const}])']
+        ctx.ob(rule, f'XsdType.{name} decides by derivation from {const.split("_", 1)[-1].lower()}', f.loc(), ok,
+               '' if ok else f'returns {rets}: for a complex type with simple content derived from the built-in *and* attributes the answer is no longer true - key fields '
+               'of such a type are compared through XPath typed values (every non-empty boolean lexical is True: false == true)', key=f'XsdType.{name}|by-derivation')
+    gv = ctx.idx.method('xmlschema.validators.identities.FieldValueSelector', 'get_value')
+    ok = any(isinstance(cl.func, ast.Attribute) and cl.func.attr == 'is_boolean' for cl in calls(gv.node)) and \
+        any(isinstance(cl.func, ast.Attribute) and cl.func.attr == 'is_qname' for cl in calls(gv.node))
+    ctx.ob(rule, 'FieldValueSelector.get_value consults is_qname() and is_boolean() before it falls back to the XPath typed value', gv.loc(), ok, '', key='get_value|predicates',
+           nontrivial=False)
+    ctx.floor(rule, 'type predicates by derivation', n, 5)
+    ctx.explain('C08.h: sibling agreement of the five XsdType predicates on `self.is_derived(self.maps.types[<builtin>])`.')
+
+
+RULES = [rule_a, rule_b, rule_c, rule_d, rule_e, rule_f, rule_g, rule_h]
